@@ -147,6 +147,14 @@ func c15Exchanges(e *vh.Env, c c15Case) []c15Ex {
 		sc2 := body("application/json", n, false, "cl", 1)
 		sc2.Headers = append(sc2.Headers, [2]string{"Content-Encoding", "br"})
 		add(fmt.Sprintf("backend says br %d", n), "GET", "gzip, br", true, sc2)
+		// a resource that is itself a gzip file, served without Content-Encoding under a matching content type: whatever
+		// the plugin does, decoding what the client receives gives those bytes back
+		gzfile := body("application/json", n, true, "cl", 1)
+		gzfile.Gzip = true
+		add(fmt.Sprintf("gzip file as the resource itself %d", n), "GET", "gzip", true, gzfile)
+		gzfile2 := body("text/plain", n, true, "chunked", 2)
+		gzfile2.Gzip = true
+		add(fmt.Sprintf("gzip file as the resource itself %d chunked", n), "GET", "gzip, br", true, gzfile2)
 		// a client that sends no Accept-Encoding at all gets the backend's encoded bytes as they are
 		add(fmt.Sprintf("backend already gzip %d, no Accept-Encoding", n), "GET", "", false, sc)
 		add(fmt.Sprintf("backend says br %d, Accept-Encoding: identity", n), "GET", "identity", true, sc2)
